@@ -1005,6 +1005,165 @@ fn long_cases(thorough: bool, rng: &mut Rng) -> Vec<LongCase> {
     v
 }
 
+// ---------------------------------------------------------------- sequences (state carried between builds / calls)
+// Several geometry tables are written one after the other to the SAME path; after every write one plugin
+// per format is built through TraversalPluginBuilder::build and all of them are kept alive; then several
+// calls with the same request (same origin / destination) but different routes are made, each on the
+// plugins of one build, in order.  Call k under format f must render route k over the table of its build.
+#[derive(Clone, Debug, Serialize, Deserialize, PartialEq)]
+struct SeqCase {
+    tables: Vec<Vec<Row>>,
+    /// (index of the build whose plugins answer, the route of that response)
+    calls: Vec<(usize, Vec<Trav>)>,
+    o: u64,
+    d: u64,
+}
+fn run_seq(q: &SeqCase, dir: &Path, id: usize) -> String {
+    let files = dir.join("files");
+    std::fs::create_dir_all(&files).unwrap();
+    let geom_file: PathBuf = files.join(format!("geometry_seq_{}.txt", id));
+    let uuid_file: PathBuf = files.join(format!("uuid_seq_{}.txt", id));
+    write_table(&uuid_file, &["a".to_string()], false);
+    let app = search_app();
+    let req = request_json(&simple_req(q.o, q.d));
+    // builds[b][f]: kept alive until the end of the case
+    let mut builds: Vec<Vec<Result<Arc<dyn OutputPlugin>, String>>> = vec![];
+    for t in &q.tables {
+        write_table(&geom_file, &t.iter().map(row_text).collect::<Vec<_>>(), false);
+        builds.push(FORMATS.iter().map(|f| build_plugin(&Pcfg::Traversal(Some(*f), None), &geom_file, &uuid_file)).collect());
+    }
+    let mut sections = vec![];
+    for (b, route) in &q.calls {
+        let c = Case {
+            rows: vec![],
+            gz: false,
+            uuids: vec![],
+            ucrlf: false,
+            utrail: true,
+            req: simple_req(q.o, q.d),
+            sr: Some((vec![route.clone()], vec![])),
+            chains: vec![],
+        };
+        for (fi, f) in FORMATS.iter().enumerate() {
+            let section = match builds.get(*b).map(|ps| &ps[fi]) {
+                None | Some(Err(_)) => "BUILDERR".to_string(),
+                Some(Ok(p)) => match catch(AssertUnwindSafe(|| apply_output_processing(&req, search_result(&c), &app, &[p.clone()]))) {
+                    Ok(resp) => show_response(&resp, Some(*f), None),
+                    Err(_) => "PANIC".to_string(),
+                },
+            };
+            sections.push(section);
+        }
+    }
+    drop(builds);
+    let _ = std::fs::remove_file(&geom_file);
+    let _ = std::fs::remove_file(&uuid_file);
+    sections.join(" | ")
+}
+fn coq_rows(rows: &[Row]) -> String {
+    coq_list(rows, |r| match r {
+        Row::Bad(_) => "None".to_string(),
+        Row::Line(pts) => format!("(Some {})", coq_list(pts, |(x, y)| format!("({}, {})", coq_z(*x as i128), coq_z(*y as i128)))),
+        Row::Bits(pts) => format!(
+            "(Some {})",
+            coq_list(pts, |(x, y)| format!("({}, {})", coq_z(coord_label(f32::from_bits(*x)) as i128), coq_z(coord_label(f32::from_bits(*y)) as i128)))
+        ),
+    })
+}
+fn add_seq(st: &mut Stream, q: SeqCase, family: &str) {
+    let id = st.next_id();
+    let args = format!(
+        "{} (ReqObj (FNat {}) (FNat {})) {}",
+        coq_list(&q.tables, |t| coq_rows(t)),
+        coq_nat(q.o as usize),
+        coq_nat(q.d as usize),
+        coq_list(&q.calls, |(b, r)| format!("({}, {})", coq_nat(*b), coq_list(r, coq_trav)))
+    );
+    let terms = vec![format!("line_m_seq {} {}", id, args), format!("line_s_seq {} {}", id, args)];
+    let out = run_seq(&q, &st.dir.clone(), id);
+    st.count(&format!("family:{}", family));
+    st.count(&format!("seq_builds_on_one_path:{}", q.tables.len()));
+    st.count(&format!("seq_calls:{}", q.calls.len()));
+    let mut per_build: HashMap<usize, Vec<&Vec<Trav>>> = HashMap::new();
+    for (b, r) in &q.calls {
+        per_build.entry(*b).or_default().push(r);
+    }
+    if per_build.values().any(|rs| rs.iter().enumerate().any(|(i, r)| rs[..i].iter().any(|p| p.len() == r.len() && p != r))) {
+        st.count("seq_same_od_equal_length_different_route_on_one_plugin");
+    }
+    if q.tables.len() >= 2 && q.tables.windows(2).any(|w| w[0] != w[1]) {
+        st.count("seq_path_rewritten_between_builds");
+    }
+    st.count("nontrivial");
+    st.mark_nontrivial(&serde_json::to_string(&q).unwrap());
+    let desc = json!({"id": id, "family": family, "seq": serde_json::to_value(&q).unwrap()});
+    st.case(terms, vec![format!("I {} {}", id, out)], desc);
+}
+/// a diamond 0 -> {1, 2} -> 3 with edges e0: 0-1, e1: 1-3, e2: 0-2, e3: 2-3, plus a direct edge e4: 0-3
+fn diamond_rows(shift: i32) -> Vec<Row> {
+    vec![
+        Row::Line(vec![(0 + shift, 0), (8 + shift, 8)]),
+        Row::Line(vec![(8 + shift, 8), (12 + shift, 6), (16 + shift, 0)]),
+        Row::Line(vec![(0 + shift, 0), (8 + shift, -8)]),
+        Row::Line(vec![(8 + shift, -8), (16 + shift, 0)]),
+        Row::Line(vec![(0 + shift, 0), (16 + shift, 0)]),
+    ]
+}
+fn seq_boundary_cases(st: &mut Stream) {
+    let via = |ids: &[usize], k: usize| -> Vec<Trav> { ids.iter().enumerate().map(|(i, e)| trav_det(*e, i + k)).collect() };
+    // one plugin instance, same origin / destination, different routes: equal edge count (time-optimal then
+    // distance-optimal on the diamond), then a different length, then the first route again
+    add_seq(st, SeqCase { tables: vec![diamond_rows(0)], calls: vec![(0, via(&[0, 1], 0)), (0, via(&[2, 3], 0))], o: 0, d: 3 }, "seq_same_od_other_route");
+    add_seq(
+        st,
+        SeqCase { tables: vec![diamond_rows(0)], calls: vec![(0, via(&[2, 3], 0)), (0, via(&[0, 1], 5)), (0, via(&[4], 0)), (0, via(&[2, 3], 0))], o: 0, d: 3 },
+        "seq_same_od_other_route",
+    );
+    add_seq(
+        st,
+        SeqCase { tables: vec![diamond_rows(0)], calls: vec![(0, via(&[4], 0)), (0, via(&[0, 1], 0)), (0, via(&[1, 0], 0)), (0, via(&[0, 1], 0))], o: 2, d: 2 },
+        "seq_same_od_other_route",
+    );
+    // the geometry file rewritten between two builds on the same path (same rows, other coordinates), first
+    // plugins kept alive: each plugin renders the table of ITS build
+    add_seq(
+        st,
+        SeqCase { tables: vec![diamond_rows(0), diamond_rows(100)], calls: vec![(0, via(&[0, 1], 0)), (1, via(&[0, 1], 0)), (0, via(&[2, 3], 0)), (1, via(&[2, 3], 0))], o: 0, d: 3 },
+        "seq_rebuild_on_rewritten_path",
+    );
+    // rewritten with fewer rows (edge 4 loses its geometry), then with more rows again
+    let mut short = diamond_rows(7);
+    short.truncate(4);
+    add_seq(
+        st,
+        SeqCase { tables: vec![diamond_rows(0), short, diamond_rows(-40)], calls: vec![(1, via(&[4], 0)), (0, via(&[4], 0)), (2, via(&[4], 0)), (1, via(&[2, 3], 0)), (2, via(&[2, 3], 0))], o: 0, d: 3 },
+        "seq_rebuild_on_rewritten_path",
+    );
+    // identical contents rewritten: nothing to tell apart (control)
+    add_seq(st, SeqCase { tables: vec![diamond_rows(3), diamond_rows(3)], calls: vec![(0, via(&[0, 1], 0)), (1, via(&[2, 3], 0))], o: 1, d: 3 }, "seq_rebuild_on_rewritten_path");
+}
+fn random_seq(r: &mut Rng) -> SeqCase {
+    let nrows = r.range(3, 8) as usize;
+    let nt = r.range(1, 3) as usize;
+    let tables: Vec<Vec<Row>> = (0..nt).map(|_| gen_rows(r, nrows)).collect();
+    let ncalls = r.range(2, 4) as usize;
+    let len0 = r.range(1, 4) as usize;
+    let calls = (0..ncalls)
+        .map(|_| {
+            let len = if r.chance(2, 3) { len0 } else { r.range(1, 5) as usize };
+            let route: Vec<Trav> = (0..len)
+                .map(|_| {
+                    let extra = if r.chance(1, 10) { 1 } else { 0 };
+                    let e = r.below(nrows as u64 + extra) as usize;
+                    gen_trav(r, e)
+                })
+                .collect();
+            (r.below(nt as u64) as usize, route)
+        })
+        .collect();
+    SeqCase { tables, calls, o: r.below(4), d: r.below(4) }
+}
+
 // ---------------------------------------------------------------- Gallina emitters
 
 fn coq_fmt_opt(f: &Option<Fmt>) -> String {
@@ -1648,11 +1807,15 @@ fn main() {
                 let name = format!("corpus:{}", d["name"].as_str().unwrap_or("?"));
                 if d.get("long").is_some() {
                     add_long(&mut st, serde_json::from_value(d["long"].clone()).unwrap(), &name);
+                } else if d.get("seq").is_some() {
+                    add_seq(&mut st, serde_json::from_value(d["seq"].clone()).unwrap(), &name);
                 } else {
                     let c: Case = serde_json::from_value(d["case"].clone()).unwrap();
                     add_case(&mut st, c, &name);
                 }
             }
+        } else if v["case"].get("seq").is_some() {
+            add_seq(&mut st, serde_json::from_value(v["case"]["seq"].clone()).unwrap(), "replay");
         } else if v["case"].get("long").is_some() {
             add_long(&mut st, serde_json::from_value(v["case"]["long"].clone()).unwrap(), "replay");
         } else {
@@ -1664,6 +1827,7 @@ fn main() {
     }
     let thorough = a.extra.iter().any(|x| x == "--thorough");
     boundary_cases(&mut st, thorough);
+    seq_boundary_cases(&mut st);
     let mut rng = Rng::new(a.seed);
     // long routes are spread over the stream (one per shard of the model evaluation)
     let mut long = long_cases(thorough, &mut rng.fork());
@@ -1676,6 +1840,11 @@ fn main() {
             continue;
         }
         let mut r = rng.fork();
+        if r.chance(1, 12) {
+            let q = random_seq(&mut r);
+            add_seq(&mut st, q, "random_sequence");
+            continue;
+        }
         let c = random_case(&mut r);
         add_case(&mut st, c, "random");
     }
